@@ -50,9 +50,13 @@ def read_model_input(a):
     if a is None:
         return []
     seq, quals = a.query_sequence, a.query_qualities
-    calls = [[rp, ord(seq[qp]), int(quals[qp])] for qp, rp in a.get_aligned_pairs(matches_only=True)]
+    if a.has_tag('MD'):
+        calls = [[rp, ord(seq[qp]), int(quals[qp]), qp, ord(rb)]
+                 for qp, rp, rb in a.get_aligned_pairs(matches_only=True, with_seq=True)]
+    else:
+        calls = [[rp, ord(seq[qp]), int(quals[qp]), qp, 0] for qp, rp in a.get_aligned_pairs(matches_only=True)]
     return [CONTIGS.index(a.reference_name), a.reference_start, a.reference_end, 1 if a.is_reverse else 0,
-            1 if a.has_tag('MD') else 0, calls]
+            1 if a.has_tag('MD') else 0, calls, a.infer_query_length()]
 
 
 def canon_dict(d):
@@ -73,9 +77,10 @@ def run_case(case, refs, hdr):
         frags.append(f)
         minputs.append([read_model_input(r) for r in reads])
     ds = bool(case['ds'])
+    kw = case.get('kw') or {}
     for f in frags:
         try:
-            fc = f.get_consensus(dove_safe=ds)
+            fc = f.get_consensus(dove_safe=ds, **kw)
             fragcons.append(sorted([CONTIGS.index(k[0]), int(k[1]), ord(v[0]), int(v[1])] for k, v in fc.items()))
         except BaseException as e:
             fragcons.append(err(e))
@@ -85,7 +90,7 @@ def run_case(case, refs, hdr):
             m = Molecule()
             for i in order:
                 m._add_fragment(frags[i])
-            outs.append(canon_dict(m.get_consensus(dove_safe=ds)))
+            outs.append(canon_dict(m.get_consensus(dove_safe=ds, **kw)))
         except BaseException as e:
             outs.append(err(e))
     table = None
@@ -93,7 +98,7 @@ def run_case(case, refs, hdr):
         m = Molecule()
         for i in case['orders'][0]:
             m._add_fragment(frags[i])
-        d, ph, cons = m.get_consensus(dove_safe=ds, with_probs_and_obs=True)
+        d, ph, cons = m.get_consensus(dove_safe=ds, with_probs_and_obs=True, **kw)
         if cons is None:
             table = []
         else:
@@ -129,13 +134,14 @@ def run_history(h, refs, hdr):
                 out.append(acc)
             elif op[0] == 'get':
                 ds, probs = bool(op[1]), bool(op[2])
+                kw = (op[3] if len(op) > 3 else None) or {}
                 if probs:
-                    d, ph, cons = m.get_consensus(dove_safe=ds, with_probs_and_obs=True)
+                    d, ph, cons = m.get_consensus(dove_safe=ds, with_probs_and_obs=True, **kw)
                     table = [] if cons is None else sorted([CONTIGS.index(k[0]), int(k[1])] + [int(x) for x in v]
                                                            for k, v in cons.items())
                     out.append({'cons': canon_dict(d), 'table': table})
                 else:
-                    out.append({'cons': canon_dict(m.get_consensus(dove_safe=ds))})
+                    out.append({'cons': canon_dict(m.get_consensus(dove_safe=ds, **kw))})
         except BaseException as e:
             out.append(err(e))
     return {'minput': minputs, 'ops': out, 'n_held': len(m.fragments)}
